@@ -4,7 +4,7 @@
 # without touching committed evidence, print which checks fire, and ALWAYS undo the patch.
 set -u
 HERE="$(cd "$(dirname "${BASH_SOURCE[0]}")/.." && pwd)"
-PATCH="$1"; shift
+PATCH="$(realpath "$1")"; shift
 IDS="${*:-C01 C02 C03 C04 C05 C06 C07 C08 C09 C10 C11 C12 C13 C14 C15 C16 C17 C18 C19 C20}"
 TIER="${MUT_TIER:-quick}"
 if ! git -C /repo diff --quiet; then echo "refusing: /repo has uncommitted changes"; exit 2; fi
